@@ -216,6 +216,34 @@ func escapeSweep(thorough bool) []escCase {
 	return out
 }
 
+// classEscapeSweep: the escapes that denote a set of characters (\d \D \w \W \s \S), alone and inside
+// classes (plain, negated, next to a literal, negated next to a line terminator), against every single
+// code point below U+3100 and both neighbours of every ECMA-262 white space / line terminator code
+// point: where such a set is written out as ranges, every boundary of every range is hit.
+func classEscapeSweep() (pats []string, subs []string) {
+	for _, e := range []string{"d", "D", "w", "W", "s", "S"} {
+		E := bs + e
+		pats = append(pats, "^"+E+"$", "^["+E+"]$", "^[^"+E+"]$", "^["+E+"a]$", "^[^"+E+bs+"n]$", "^["+bs+"s"+bs+"S]$", "^"+E+"+$")
+	}
+	seen := map[rune]bool{}
+	add := func(c rune) {
+		if c >= 0 && c <= 0x10ffff && !(c >= 0xd800 && c <= 0xdfff) && !seen[c] {
+			seen[c] = true
+			subs = append(subs, string(c))
+		}
+	}
+	for c := rune(0); c < 0x3100; c++ {
+		add(c)
+	}
+	for _, c := range []rune{0x9, 0xa, 0xb, 0xc, 0xd, 0x20, 0xa0, 0x1680, 0x2000, 0x200a, 0x2028, 0x2029, 0x202f, 0x205f, 0x3000, 0xfeff, 0xd7ff, 0xe000, 0xffff, 0x10000, 0x10ffff} {
+		add(c - 1)
+		add(c)
+		add(c + 1)
+	}
+	subs = append(subs, "", "a ", "  ")
+	return pats, subs
+}
+
 // followerSweep: every kind of escape directly followed by a literal character, for every character
 // of a dense range (Latin, Greek, Cyrillic, Armenian, Hebrew, Arabic incl. their digits) and boundary
 // code points (digits of other scripts, characters whose low byte is an ASCII digit or hex letter).
@@ -531,6 +559,24 @@ func main() {
 	close(fjobs)
 	wg.Wait()
 	r.Set("follower_sweep_patterns", followerPats)
+	cePats, ceSubs := classEscapeSweep()
+	cjobs := make(chan string, len(cePats))
+	for w := 0; w < runtime.NumCPU(); w++ {
+		wg.Add(1)
+		go func() {
+			defer wg.Done()
+			for p := range cjobs {
+				judgePattern(r, p, ceSubs, st)
+			}
+		}()
+	}
+	for _, p := range cePats {
+		cjobs <- p
+	}
+	close(cjobs)
+	wg.Wait()
+	r.Set("class_escape_sweep_patterns", len(cePats))
+	r.Set("class_escape_sweep_subjects", len(ceSubs))
 	if done < int64(len(pats)) {
 		r.NotExhaustive(fmt.Sprintf("internal deadline %s reached after %d of %d patterns (shortest first)", budget, done, len(pats)))
 	}
@@ -562,5 +608,5 @@ func main() {
 	}
 	r.Assume("oracle: internal/ecma reference matcher (ECMA-262 pattern semantics over code points, no Annex B); alarm only when regexp2 ECMAScript|Unicode agrees with it against ogen",
 		"patterns outside the portable grammar (reference reports a syntax error: Annex-B-only forms, named groups) are only checked for String()==source and for never running look-around/back-references on RE2")
-	r.Finish(fmt.Sprintf("patterns: level %d = all single terms (%d atoms x %d quantifiers), two-term sequences (quick: 4 quantifiers on the first term, none on the second; thorough: all on the first, 3 on the second), thorough adds three-term sequences and alternations over 21 interaction-heavy atoms; each short pattern also wrapped as ^p$, ^(?:p)$, p|b, (?:p)+, (p)*b. subjects: all strings of <= %d code points over 26 symbols (<= 3 for patterns of <= 6 bytes). Escape sweep: every \\cX (52), \\xHH (all 256, both hex cases), \\uHHHH and \\u{H} for 0..FF and 19 boundary code points up to U+10FFFF, every identity and control escape, each in 10 contexts (alone, in a class, negated, quantified, as both ends of a range, repeated group, mixed class), against every single code point < U+0180 (thorough: < U+3000) and 22 boundary code points, plus all pairs over the neighbours of its value and the characters of its own spelling. Follower sweep: nine kinds of escape, a numbered and a named back-reference, each directly followed by every character below U+0700 (thorough: U+3100) and 22 boundary code points (digits of other scripts, characters whose low byte is an ASCII digit or hex letter), alone, in a class and repeated, against subjects built from the escape's value and the follower. One evaluation = (pattern, subject); all distinct; non-trivial = evaluated by both the reference and ogen.", level, len(atomsList()), len(quants), subjLen))
+	r.Finish(fmt.Sprintf("patterns: level %d = all single terms (%d atoms x %d quantifiers), two-term sequences (quick: 4 quantifiers on the first term, none on the second; thorough: all on the first, 3 on the second), thorough adds three-term sequences and alternations over 21 interaction-heavy atoms; each short pattern also wrapped as ^p$, ^(?:p)$, p|b, (?:p)+, (p)*b. subjects: all strings of <= %d code points over 26 symbols (<= 3 for patterns of <= 6 bytes). Escape sweep: every \\cX (52), \\xHH (all 256, both hex cases), \\uHHHH and \\u{H} for 0..FF and 19 boundary code points up to U+10FFFF, every identity and control escape, each in 10 contexts (alone, in a class, negated, quantified, as both ends of a range, repeated group, mixed class), against every single code point < U+0180 (thorough: < U+3000) and 22 boundary code points, plus all pairs over the neighbours of its value and the characters of its own spelling. Class-escape sweep: \\d \\D \\w \\W \\s \\S alone and in five class contexts against every single code point below U+3100 and both neighbours of every white space / line terminator code point. Follower sweep: nine kinds of escape, a numbered and a named back-reference, each directly followed by every character below U+0700 (thorough: U+3100) and 22 boundary code points (digits of other scripts, characters whose low byte is an ASCII digit or hex letter), alone, in a class and repeated, against subjects built from the escape's value and the follower. One evaluation = (pattern, subject); all distinct; non-trivial = evaluated by both the reference and ogen.", level, len(atomsList()), len(quants), subjLen))
 }
